@@ -725,6 +725,13 @@ struct ZoneEngine : Engine {
 				return v;
 			q.argv = {"dconv", "--from-zone", "/sim/zi/Z", "-f", "%FT%T"};
 			bool timeonly = ((p.hash() >> 17) & 3) == 0;	/* the date comes from --base, given with a time of day of its own */
+			if (timeonly && !m.ent.empty()) {
+				/* on the day of a transition, some hours behind it: the neighbouring day has the other offset */
+				size_t k = (size_t)((p.hash() >> 33) % m.ent.size());
+				int64_t cand = m.ent[k].t + 3600 * (4 + (int64_t)((p.hash() >> 40) % 6));
+				if (cand >= -11644000000LL && cand <= 60000000000LL)
+					ts.insert(ts.begin(), cand);
+			}
 			for (auto t : ts) {
 				int64_t l = t + m.off_at(t);
 				auto S = inverse_set(m, l);
